@@ -979,7 +979,8 @@ class FastSyncGroup(SyncGroupBase, XDP):
     """A :class:`SyncGroup` where all devices are EBPF programs"""
     license = "GPL"
 
-    properties = ArrayMap()
+    # DeviceVars live in this map: process-based groups must share it
+    properties = ProcessSyncGroup.properties
     wkc_errors = properties.globalVar('I')
 
     def __init__(self, ec, devices, **kwargs):
